@@ -973,7 +973,8 @@ class OdeSystem(object):
         self.__fix_dt_dir(tf, self.__t[self.counter])
 
         if D.ar_numpy.abs(self.dt) > D.ar_numpy.abs(tf - self.__t[self.counter]):
-            self.dt = D.ar_numpy.abs(tf - self.__t[self.counter]) * 0.5
+            self.__dt = D.ar_numpy.asarray(D.ar_numpy.abs(tf - self.__t[self.counter]) * 0.5, **self.__array_con_kwargs)
+            self.__fix_dt_dir(tf, self.__t[self.counter])
 
         total_steps = self.__alloc_space_steps(tf)
 
